@@ -5,15 +5,28 @@ import "fmt"
 func registry() []PropSpec {
 	return []PropSpec{
 		{
+			ID: "C11",
+			Quick: []HarnessSpec{
+				{Pkg: pkgCC, Func: "H11b_q", Unwind: 40, HookLimit: 3, Note: "reference-server mode, one case: stderr of 0..2 lines (feedback for the case / unrelated 'x: y' / plain text), last line with or without newline; x-expect-* headers"},
+				{Pkg: pkgCC, Func: "H11_q", Unwind: 10, HookLimit: 3, Note: "runTestCasesForServer, batch of 2 cases: start error, stdin write / close error, response read error, missing certificate under TLS, empty host, server exit before send k; per send the client refuses / answers (response, error result, callback error, neither) / answers later (delivered while the runner waits, or never)"},
+			},
+			Thorough: []HarnessSpec{
+				{Pkg: pkgCC, Func: "H11_t", Unwind: 10, HookLimit: 4, JobSecs: 1800, ExecSecs: 1500, Note: "batch of 3 cases"},
+			},
+			Stubs: []string{"server process = fake controller with scripted stdin/stdout faults", "client = scripted clientRunner", "context.WithCancel = flag model", "delimited I/O stubbed in the engine, real bytes natively", "proto.Clone = field-wise copy", "WaitGroup.Wait lets the client deliver outstanding answers (block hook)", "bufio.Reader.ReadString = script of lines (real bufio natively); the stderr goroutine runs at spawn"},
+			Out:   []string{"OS processes, real pipes, timing"},
+		},
+		{
 			ID: "C16",
 			Quick: []HarnessSpec{
+				{Pkg: pkgTracer, Func: "H16b_q", Unwind: 10, Note: "builder: every sequence of 4 operations from {request data, request end (ok / error), response data, response end, cancel, response error, build()} on a server-side builder"},
 				{Pkg: pkgTracer, Func: "H16a_q", Unwind: 10, HookLimit: 6, Note: "Tracer: every sequence of 4 operations from {Init, Complete, Clear, Await} over 2 test names; an Await that blocks lets the rest of the script run (nested waits included) and ends with its context when the script is over"},
 			},
 			Thorough: []HarnessSpec{
 				{Pkg: pkgTracer, Func: "H16a_t", Unwind: 10, HookLimit: 8, JobSecs: 1800, ExecSecs: 1500, Note: "sequences of 6 operations"},
 			},
 			Stubs: []string{"context = fake with a done channel; sync.Mutex sequential; a blocked select runs the remaining operations of the script (atomic-step schedules), natively the waiter runs in a goroutine"},
-			Out:   []string{"data races and interleavings inside a lock-protected section (needs a memory-model checker)", "builder event orders (not covered yet)"},
+			Out:   []string{"data races and interleavings inside a lock-protected section (needs a memory-model checker)", "client-side builder branches (HTTP version fix-up via reflection)"},
 		},
 		{
 			ID: "C13",
